@@ -869,7 +869,7 @@ def case_udp(rng):
     with and without password; TCP connections in every relation to the gates (view-only, holding the pointer,
     still in the handshake) present at the same time - none of which applies to the UDP channel"""
     npw = rng.choice([0, 0, 0, 1, 2])
-    scr = rnd_screen(rng, npw=npw, firstvo=rng.randint(0, npw) if npw else 0, deferptr=rng.choice([0, 0, 50]))
+    scr = rnd_screen(rng, npw=npw, firstvo=rng.randint(0, npw) if npw else 0)
     steps = [scr]
     opened = False
     if rng.random() < 0.8:
